@@ -28,4 +28,20 @@ fn main() {
     let out = Path::new(&std::env::var("OUT_DIR").unwrap()).join("mods.rs");
     fs::write(out, s).unwrap();
     println!("cargo:rerun-if-changed=src");
+    // optional hooks of /repo: cfg(has_h7) when the ddnnife sources offer the clause cache view (H7)
+    println!("cargo:rustc-check-cfg=cfg(has_h7)");
+    let manifest = fs::read_to_string(Path::new(env!("CARGO_MANIFEST_DIR")).join("Cargo.toml")).unwrap_or_default();
+    if let Some(line) = manifest.lines().find(|l| l.trim_start().starts_with("ddnnife =")) {
+        if let Some(i) = line.find("path = \"") {
+            let rest = &line[i + 8..];
+            if let Some(j) = rest.find('"') {
+                let f = Path::new(&rest[..j]).join("src/ddnnf/clause_cache.rs");
+                println!("cargo:rerun-if-changed={}", f.display());
+                println!("cargo:rerun-if-changed=Cargo.toml");
+                if fs::read_to_string(&f).map(|t| t.contains("VerifCacheView")).unwrap_or(false) {
+                    println!("cargo:rustc-cfg=has_h7");
+                }
+            }
+        }
+    }
 }
